@@ -333,9 +333,12 @@ impl BDF {
                 lu_is_current = false;  // Step size changed
             }
 
-            // A step that ends within the step-size resolution of xend ends on it (the run would
-            // otherwise finish a few ulps short of xend)
-            if x_new + 0.1 * (xend - x_new) == x_new {
+            // A step that ends within the step-size resolution of xend (the 10 * EPSILON * |x| below
+            // which no step is attempted) ends on it: the run would otherwise finish a few ulps short
+            // of xend, or fail on a last step of a few ulps
+            if x_new + 0.1 * (xend - x_new) == x_new
+                || (xend - x_new).abs() <= 10.0 * Float::EPSILON * x_new.abs()
+            {
                 x_new = xend;
             }
 
